@@ -8,6 +8,7 @@
 package main
 
 import (
+	"regexp"
 	"encoding/json"
 	"fmt"
 	"net/url"
@@ -132,7 +133,15 @@ type tree struct {
 	leaf int
 }
 
-var names = []string{"", "a", "0", "1", "01", "~", "/", "~0", "~1", "a/b", "m~n", "%", "%25", "é", " ", "-", "#", "00", "~01", "~10", "b"}
+var names = []string{"", "a", "0", "1", "01", "~", "/", "~0", "~1", "a/b", "m~n", "%", "%25", "é", " ", "-", "#", "00", "~01", "~10", "b",
+	// names a YAML parser resolves to something else than a string when they are written plain
+	"200", "1e3", "true", "null", "2020-01-01", "0x1F", "1.5", ".inf"}
+
+// plainKeys: the YAML emitter writes keys without quotes wherever YAML allows it, so that their
+// nodes carry !!int / !!float / !!bool / !!null / !!timestamp tags: a member name is the key's text.
+var plainKeys bool
+
+var plainSafe = regexp.MustCompile(`^([A-Za-z0-9_.é][A-Za-z0-9_.+é-]*|~)$`)
 
 func (t *tree) json(sb *strings.Builder) {
 	switch t.kind {
@@ -176,6 +185,9 @@ func (t *tree) yaml(sb *strings.Builder, ind string, inline bool) {
 		}
 		for i, k := range t.keys {
 			kb, _ := json.Marshal(k)
+			if plainKeys && plainSafe.MatchString(k) {
+				kb = []byte(k)
+			}
 			if !(inline && i == 0) {
 				sb.WriteString(ind)
 			}
@@ -407,6 +419,13 @@ func main() {
 				var yb strings.Builder
 				t.yaml(&yb, "", true)
 				docs = append(docs, yb.String())
+				plainKeys = true
+				var pb strings.Builder
+				t.yaml(&pb, "", true)
+				plainKeys = false
+				if pb.String() != yb.String() {
+					docs = append(docs, pb.String())
+				}
 			}
 			rot++
 		}
@@ -418,6 +437,11 @@ func main() {
 			var sb strings.Builder
 			t.json(&sb)
 			docs = append(docs, sb.String())
+			plainKeys = true
+			var pb strings.Builder
+			t.yaml(&pb, "", true)
+			plainKeys = false
+			docs = append(docs, pb.String())
 		}
 	}
 	docs = append(docs,
@@ -543,7 +567,7 @@ func main() {
 	r.Set("pointers_designating_a_node", designated)
 	r.Assume("oracle: the RFC 6901 evaluator in cmd/c16 (with its own percent-decoder); documents are parsed by go-faster/yaml, the parser ogen itself uses",
 		"a '~' not followed by 0 or 1 is not a pointer under the RFC's ABNF; ogen's lenient resolution of it is outside the oracle and counted (outside_oracle_lenient_tilde)")
-	r.Finish(fmt.Sprintf("documents: all tree shapes of depth <= %d (objects <= 2 members, arrays <= 3) with member names rotated through %d adversarial names under %d rotation steps, in JSON and YAML spelling, plus all %d sibling pairs of names; pointers: valid pointer to every node in plain / fragment (unescaped, minimal, full upper, full lower percent-encoding) form, every single-character deletion/insertion/substitution over %q for pointers <= %d bytes, and all strings <= %d over that alphabet on every 97th document. distinct = (document, pointer) pair; all are non-trivial (each is compared by node identity with the reference).", depth, len(names), len(steps), len(names)*(len(names)-1)/2, alphabet, editMax, strLen))
+	r.Finish(fmt.Sprintf("documents: all tree shapes of depth <= %d (objects <= 2 members, arrays <= 3) with member names rotated through %d adversarial names under %d rotation steps, in JSON, YAML and plain-key YAML spelling (keys such as 200, 1e3, true, null, 2020-01-01 carry non-string tags), plus all %d sibling pairs of names; pointers: valid pointer to every node in plain / fragment (unescaped, minimal, full upper, full lower percent-encoding) form, every single-character deletion/insertion/substitution over %q for pointers <= %d bytes, and all strings <= %d over that alphabet on every 97th document. distinct = (document, pointer) pair; all are non-trivial (each is compared by node identity with the reference).", depth, len(names), len(steps), len(names)*(len(names)-1)/2, alphabet, editMax, strLen))
 }
 
 // reason classifies why the reference has no node although ogen returned one (for known-finding
